@@ -20,6 +20,7 @@ CLAIMED.update({
  "C14": ("seqx", "model_checking", "After every Flush and for every CopyTo destination in every history up to the bound (store alphabet; size/name profile with key lengths up to 65535, values up to 70000 bytes, unusual collection names, empty collections) an independent decoder written from the documented layout must accept all records, reconstruct the model's flushed state and explain every appended byte as an item, node or root record reachable from the new root.", "5.C14", "explicit-state search over histories with an independent file-format decoder as oracle"),
  "C17": ("seqx", "model_checking", "All 512 subsets of the nine store callbacks (neutral implementations, values written/read in two chunks) x every history up to the bound, with the C01/C02/C09/C14 oracles on and the additional requirement that the observation log equals the log of the same history without callbacks; the 9 singletons, the empty and the full set at larger depth.", "5.C17", "exhaustive enumeration of callback configurations x operation histories with differential log comparison"),
  "C19": ("seqx", "model_checking", "Every history up to the bound over mutations, key-only lookups/visits/Len, value-loading reads (to vary the cache), Flush, Evict, Reopen; every ReadAt issued during a key-only call is checked against the value byte ranges of all item records (independent decoder over all roots); every open of a file ending in a root record may only Stat and read inside that record and must leave nothing cached; at the end of every history the file is re-opened and all key-only operations run on the never-loaded store.", "5.C19", "explicit-state search over histories with a per-read file monitor"),
+ "C07": ("faultx", "fault_enumeration", "Exhaustive single-fault enumeration on the real code: 5 initial stores x every history up to the bound over all I/O-performing entry points x a failure at every individual ReadAt/WriteAt/Stat/Truncate index (writes: outright and torn), both continuations (retry / no retry) after the failure, then a fixed suffix (mutation, Flush, full read battery, copy re-opened, Reopen). The enumeration index is the I/O sequence number, so no position is sampled. Thorough: every torn length, depth 3, every single deviation of the eviction walks, and all pairs of faults on single operations.", "5.C07", "exhaustive fault-position enumeration at the StoreFile seam over operation histories"),
 })
 NA_REASON = "check not built yet in this round (engine under construction); will be claimed when its check exists"
 ALL = ["C%02d" % i for i in range(1, 20)]
@@ -34,6 +35,7 @@ m = {
   "add_only": True,
  },
  "engines": [
+  {"name": "faultx", "path": "engine/harness/memfile.go + engine/props/c07.go", "serves_properties": [], "kind_free_text": "environment deviations on top of seqx: the in-memory StoreFile asks the explorer at every call whether it fails (deviation bound 1, thorough 2)"},
   {"name": "seqx", "path": "engine/explore + engine/props/seq.go", "serves_properties": [], "kind_free_text": "explicit-state search over operation histories: depth-first enumeration of every choice sequence (operations, random bits) of the real store against a reference model, sharded over 16 processes"},
  ],
  "checks": [],
